@@ -137,18 +137,19 @@ CLAIMED = {
              'round-trip oracle because the text layer (PyYAML, NumPy repr) is runtime.',
         technique='Coq proof of the rounding bound over Q + executed round-trip oracle + vm_compute check of written temperatures'),
     'C09': dict(
-        text='Machine-checked proof (Coq), PARTIAL: theorems about the interpreter primitives (every digit the scanner accepts is convertible - '
-             'no ValueError; the identifier scanner never reads past the end - termination of the fixed scanner; take(n) advances by at least n; '
-             'skipped text is a prefix; lines never decrease, columns stay positive) and finite certificates on the grammar object REGENERATED '
-             'from /repo on every run (no empty alternative list, the root requires end-of-input after the query, every undefined non-terminal is '
-             'one of three known names). Whole-interpreter totality and outcome classification are decided on every run by the correspondence of '
-             'the executable PEG+reader model with the implementation (parse tree, outcome class, error line/column) on generated, truncated, '
-             'token-edited, random and non-ASCII texts, each Read under a 5 s alarm, and by the direct oracle (allowed exception classes, error '
-             'position inside the text).',
+        text='Machine-checked proof (Coq) about the executable model of the PEG interpreter (combinators, stream state, furthest-error merging): for '
+             'EVERY text and every classification of non-ASCII characters, Parser.parse on the grammar object REGENERATED from /repo on every run ends '
+             'with a parse tree or a syntax error whose (line, column) lies inside the text - it never runs out of fuel above an explicit bound linear '
+             'in the text length and never ends with another exception (theorem C09_parse_total). Proved by induction over fuel x expression for ANY '
+             'grammar carrying a certificate (nullable table + ranking = no left recursion through nullable prefixes; closed; no empty alternative '
+             'list); the certificate of the current grammar is computed and checked by the kernel on every run. Plus primitives (digits convertible, '
+             'scanner stays inside the text, progress). The reader stage (tree -> query) is total by construction and classified by its result type; '
+             'its agreement and the parser model are tied to the implementation by the correspondence (parse tree, outcome class, error line/column) '
+             'on generated, truncated, token-edited, random, non-ASCII and constraint-block texts, each Read under a 5 s alarm, and the direct oracle.',
         design='5 / C09',
-        note=TB + 'Closed under the global context. peg_never_stuck / position_invariant over the whole interpreter are not yet theorems; the '
-             'host recursion limit is runtime (known finding); reading of rule texts is C16.',
-        technique='Coq lemmas on interpreter primitives + vm_compute certificates on the regenerated grammar + vm_compute correspondence with time-outs'),
+        note=TB + 'Closed under the global context. Wall-clock time and the host recursion limit are runtime (known finding for very long '
+             'chains); reading of rule texts is C16.',
+        technique='Coq totality / position / classification proofs for the PEG interpreter with a kernel-checked certificate of the regenerated grammar + vm_compute correspondence with time-outs'),
     'C08': dict(
         text='Machine-checked proof (Coq) about the executable matcher model (own embedding enumeration + the three constraint filters): for every '
              'fragment the reader accepts and every molecule, a tuple is returned IF AND ONLY IF it is an embedding the fragment denotes (declarative '
